@@ -2,7 +2,7 @@
 
 META = {
     'level': 'exploration',
-    'rule': ('Random DAGs (types incl. an uncached limited type and the per-name subset filter NF and the transforming, non-idempotent filter NT and the filter NE that selects nothing (empty dict)) x {serial, fork, spawn} x max_workers x two '
+    'rule': ('Random DAGs (types incl. an uncached limited type and the per-name subset filter NF, the same filter inherited from a mixin (NG) and the transforming, non-idempotent filter NT and the filter NE that selects nothing (empty dict)) x {serial, fork, spawn} x max_workers x two '
              'Lab contexts holding unique canary strings (in half of the cases the second Lab runs the very task objects the first one ran). Each run() start event carries pid, ppid, native thread '
              'id, the value of a harness module global that the caller overwrites after import, and digest + key '
              'list of self.context. Oracle = per-backend process-model table (serial: caller pid+thread; fork: own '
@@ -46,7 +46,7 @@ def one(rep, rng, j, scn=None):
         backend = scn['backend']
         return _judge(rep, rng, scn, backend)
     backend = rng.choice(['serial', 'fork', 'fork', 'spawn', 'spawn'])
-    types = (('NA', 3), ('NF', 3), ('NT', 3), ('NE', 3), ('NB', 1), ('NN', 1), ('NJ', 1), ('NP', 2), ('NM', 1))
+    types = (('NA', 3), ('NF', 2), ('NG', 3), ('NT', 3), ('NE', 3), ('NB', 1), ('NN', 1), ('NJ', 1), ('NP', 2), ('NM', 1))
     scn = gen_dag_scenario(rng, backend=backend, nmax=rng.choice([3, 5, 7]), types=types, precache=False,
                            gated=False, fresh=rng.random() < 0.3)
     scn.pop('free_sleep', None)
